@@ -100,6 +100,25 @@ Str deep_snapshot(const typename X::Uri& u) {
     return s;
 }
 
+// Structural identity as C11 states it: every component identical (a NULL range differs from an empty one), IP hosts by value (their
+// spelling does not count), the absolute-path flag, the sequence of segments. Two objects are "identical" iff their keys are equal;
+// works for any object, also hand-filled ones and those a failed operation left behind.
+template <class X>
+Str struct_key(const typename X::Uri& u) {
+    Str k;
+    auto rg = [&](const typename X::Range& r) { if (!r.first) { k += "N|"; return; } k += "R"; if (r.afterLast > r.first) k.append((const char*)r.first, (size_t)((const char*)r.afterLast - (const char*)r.first)); k += "|"; };
+    rg(u.scheme); k += u.absolutePath ? "A|" : "a|"; rg(u.userInfo);
+    bool anyData = u.hostData.ip4 || u.hostData.ip6 || u.hostData.ipFuture.first;
+    if (u.hostData.ip4) { k += "4:"; k.append((const char*)u.hostData.ip4->data, 4); } k += "|";
+    if (u.hostData.ip6) { k += "6:"; k.append((const char*)u.hostData.ip6->data, 16); } k += "|";
+    if (u.hostData.ipFuture.first) { k += "F:"; rg(u.hostData.ipFuture); } k += "|";
+    if (!anyData) rg(u.hostText);
+    rg(u.portText);
+    size_t n = 0; for (const typename X::Seg* p = u.pathHead; p && n < 200000; p = p->next, n++) { k += "/"; rg(p->text); }
+    k += "#"; rg(u.query); rg(u.fragment);
+    return k;
+}
+
 // uriToString with exact-size buffer. Returns library code; *out narrowed text.
 template <class X>
 int to_string(const typename X::Uri& u, Str* out, bool* lossy = nullptr) {
